@@ -1,18 +1,27 @@
 use crate::engine::{Prop, Tier};
 
+pub mod c02;
 pub mod c03;
 pub mod c04;
 pub mod c13;
 pub mod c14;
+pub mod c15;
+pub mod c05;
+pub mod c09;
 pub mod c10;
+pub mod hl;
 pub mod returned;
 
 pub fn make(id: &str, tier: Tier) -> Option<Box<dyn Prop>> {
     Some(match id {
+        "C02" => Box::new(c02::C02::new(tier)),
         "C03" => Box::new(c03::C03::new(tier)),
         "C04" => Box::new(c04::C04::new(tier)),
         "C13" => Box::new(c13::C13::new(tier)),
         "C14" => Box::new(c14::C14::new(tier)),
+        "C05" => Box::new(c05::C05::new(tier)),
+        "C09" => Box::new(c09::C09::new(tier)),
+        "C15" => Box::new(c15::C15::new(tier)),
         "C10" => Box::new(c10::C10::new(tier)),
         _ => return None,
     })
